@@ -9,6 +9,7 @@ mod c05;
 mod c10;
 mod c11;
 mod c12;
+mod c13;
 mod chan;
 mod c19;
 mod smoke;
@@ -27,6 +28,7 @@ pub fn build(prop: &str, tier: &str) -> Vec<Scenario> {
         "C10" => c10::build(quick),
         "C11" => c11::build(quick),
         "C12" => c12::build(quick),
+        "C13" => c13::build(quick),
         "C19" => c19::build(quick),
         _ => vec![],
     }
